@@ -465,7 +465,7 @@ Q == Tier = "quick"
 ShapesP == IF Q THEN {<<0, "none">>, <<1, "none">>, <<1, "k">>, <<0, "kz">>, <<2, "empty">>}
            ELSE {<<0, "none">>, <<1, "none">>, <<1, "empty">>, <<1, "k">>, <<2, "none">>, <<0, "kz">>, <<2, "empty">>}
 ChainsP == IF Q THEN {<<>>, <<Ly(1, {"k"})>>} ELSE {<<>>, <<Ly(1, {"k"})>>, <<Ly(0, {})>>}
-CtxOpts == {<<c, o>> : c \in {"ENABLED", "UNSPECIFIED"}, o \in Opts}
+CtxOpts == {<<c, o>> : c \in IF Q THEN {"ENABLED"} ELSE {"ENABLED", "UNSPECIFIED"}, o \in Opts}
              \cup {<<"DISABLED", o>> : o \in IF Q THEN {"o_u1i1", "s_r1"} ELSE Opts}
 SweepP == {Desc(k, "user", ls, "kept", s[1], s[2], FALSE, co[2], co[1], FALSE, "none", 1, "same") :
              k \in AllKinds, ls \in ChainsP, s \in ShapesP, co \in CtxOpts}
